@@ -20,7 +20,8 @@
    the copy oracle of harness/props/c02.py on every generated case. *)
 From Coq Require Import String.
 From YV Require Import PyBase CharTables ShellMap Token Utils Scanner Rpal PState Exec TokOk
-                       ScanFaithful SpecialsProofs RpalProofs ExecPlain ExecUnk ExecArgs Catalogue.
+                       ScanFaithful SpecialsProofs RpalProofs ExecPlain ExecUnk ExecArgs ClassDecide Parser
+                       Catalogue.
 Open Scope Z_scope.
 
 (* (1) every scanner token is pinned (an error mark) or a copy of the source
@@ -74,6 +75,40 @@ Proof.
                                fuel toks st st' out (eq_refl true)).
 Qed.
 Print Assumptions C02_text_keeps_its_place.
+
+(* (5) at the level of a document: if the computable test doc_in_class
+   accepts the source text (no scanner error, no skip comment, the scan lies
+   in the class), then the visible one-line text tokens returned by
+   Parser.parser_work are exactly the scanner's text tokens, each holding the
+   source characters at its position, and the tabulated replacement of each
+   special sequence at the position of the sequence; in source order *)
+Theorem C02_document_of_the_class : forall rd fuel st latex r,
+  doc_in_class py_tables st latex = true ->
+  parser_work py_tables (exec py_tables rd fuel) st latex = Ok r ->
+  let toks := fst (scan (t_scan py_tables) latex) in
+  filter (solid py_isspace) (snd r)
+    = filter (solid py_isspace) (texts (rtoks py_tables toks)) /\
+  Forall (fun t => (In t toks /\ faithful latex t) \/
+                   exists s v, In s toks /\ faithful latex s /\ tk s = KSpecial /\
+                               assoc (txt s) (t_special_values py_tables) = Some v /\
+                               t = mk KText (pos s) v (pfix s))
+         (filter (solid py_isspace) (snd r)) /\
+  unknowns (fst r) = fold_left ExpandSites.add_unknown (unames (macros st) toks) (unknowns st) /\
+  macros (fst r) = macros st.
+Proof.
+  exact (fun rd => parser_work_class py_tables rd (eq_refl true) (fun c => eq_refl)
+                                     (eq_refl true) (eq_refl true)).
+Qed.
+Print Assumptions C02_document_of_the_class.
+
+(* the test accepts ordinary documents *)
+Example C02_class_membership :
+  doc_in_class py_tables (Exec.init_state py_tables (s2l "en") false false true)
+    (s2l "Some text -- with \emph{markup that is {not} declared}, a tie~here % comment
+and a second line.
+
+Next paragraph \unknown more.") = true.
+Proof. vm_compute. reflexivity. Qed.
 
 (* a document of the class: text in the argument of a user macro that passes
    its argument on, an undeclared macro with a group, a closing brace on a
